@@ -44,6 +44,7 @@ CONSTANTS
     DenoteLadder,  \* "ms": % is a comparison operator (as in the grammar); "ms-pctmul": % binds like * /
     \* ---- emission pools (harness) ----
     AllCmpOps, RootCmpOps, AllLogSp, AtomIds, FuncIds, ListIds, MaxWalkOps,
+    TrickyMaxOps,                   \* leaf modes 3 4 5 for the shapes up to this size
     TrickySq, TrickyDq, TrickyBq,   \* string operands holding quotes / parentheses / brackets, by quote character
     RootKindsS     \* shapes emitted in one run: those whose root kind is in this set
 
@@ -326,6 +327,9 @@ StableLead    == Stable \/ (Lead("stable") /\ FALSE)
 -----------------------------------------------------------------------------
 (* (G) emission: shapes (exhaustive) and walks (simulation)                *)
 
+RECURSIVE CountOps(_)
+CountOps(t) == IF Arity(t) = 0 THEN 0 ELSE IF Arity(t) = 1 THEN 1 + CountOps(t[3]) ELSE 1 + CountOps(t[3]) + CountOps(t[4])
+
 \* well-typed shapes; spellings and operands still open (0), except % which is typed on its own
 Shapes == IF RootKindsS = {} THEN {}       \* (not a shape run: nothing to compute)
           ELSE TreesUpTo(MaxOps, [kinds |-> Unary \cup Binary, cmps |-> {0, PctOp}, sps |-> {0},
@@ -366,7 +370,8 @@ Deco(t, keep, mode) ==
 SInit ==
     /\ \/ \E s \in {x \in Shapes : x[1] \in RootKindsS} :
             \/ (tree \in RootSp(s) /\ aux = 0)
-            \/ (tree = s /\ aux \in {1, 3, 4, 5})
+            \/ (tree = s /\ aux = 1)
+            \/ (tree = s /\ aux \in {3, 4, 5} /\ CountOps(s) <= TrickyMaxOps)
        \/ ("ATOM" \in RootKindsS /\ tree \in {<<"LIST", l>> : l \in ListIds} /\ aux = 2)
     /\ phase = "shape"
     /\ todo = <<>> /\ stack = <<>> /\ forest = <<>> /\ ops = 0
@@ -428,9 +433,6 @@ FinishWalk ==
 
 WNext == \/ (phase = "grow" /\ (PushLeaf \/ ApplyUnary \/ ApplyBinary) /\ UNCHANGED <<tree, todo, stack, aux, phase>>)
          \/ FinishWalk
-
-RECURSIVE CountOps(_)
-CountOps(t) == IF Arity(t) = 0 THEN 0 ELSE IF Arity(t) = 1 THEN 1 + CountOps(t[3]) ELSE 1 + CountOps(t[3]) + CountOps(t[4])
 
 \* one line per generated tree: its source tokens and what the mechanism model says is stored
 Emit == phase = "done" =>
